@@ -95,7 +95,7 @@ def run_shard(spec, acc):
         returned_with_identity = withheld = changed = 0
         bad = None
         for pos, ev in enumerate(events):
-            kind, r = hist.safe_feed(dec, ev)
+            kind, r = hist.safe_feed_any(dec, ev, rng) if c % 2 else hist.safe_feed(dec, ev)
             if kind == "exc":
                 bad = (pos, "decoder-raised", r)
                 break
